@@ -168,6 +168,28 @@ func ruleL2(c *Ctx) {
 			c.fail("L2", "keep:"+key, token.NoPos, "a byte is absorbed in a token state without passing tokAllowedChar or being a delimiter")
 		}
 	}
+	// the terminator test is armed only when a terminator is configured: every path that takes `byte == T` for the
+	// run-time terminator T also took `T != 0` (otherwise a NUL byte would end the list with success when no
+	// terminator is configured)
+	reT := regexp.MustCompile(`^\+(?:buf\[\*\]|[A-Za-z_][A-Za-z0-9_]*)==\+([A-Za-z_][A-Za-z0-9_]*)$`)
+	nterm := 0
+	for _, t := range g {
+		// the terminator exit: success at the current byte, taken right after `byte == T`
+		if !(t.Exit == "return" && t.Verd.only(0) && t.RetOffs == "+i" && len(t.Calls) <= 2) {
+			continue
+		}
+		for ci, cd := range t.Conds {
+			m := reT.FindStringSubmatch(cd)
+			if m == nil || ci+2 != len(t.Conds) {
+				continue // the terminator exit is decided by exactly these two tests, last on the path
+			}
+			tv := m[1]
+			nterm++
+			c.check(t.Conds[ci+1] == "+"+tv+"!=+0", "L2", "terminator-armed:"+r.name(t.From)+":"+t.Bytes.String(), t.RetPos, "the list ends with success at a byte equal to the configured terminator "+tv+" only if a terminator is configured: the test that follows is "+tv+" != 0 (got "+t.Conds[ci+1]+")")
+			break
+		}
+	}
+	c.check(nterm >= 4, "L2", "terminator-tests", token.NoPos, fmt.Sprintf("%d terminator exits checked (frozen minimum 4)", nterm))
 	c.check(nkeep >= 30, "L2", "keep-count", token.NoPos, fmt.Sprintf("%d byte-keeping transitions classified (frozen minimum 30)", nkeep))
 	// quoted values are consumed by SkipQuoted only
 	for _, t := range g {
